@@ -49,7 +49,8 @@ type Object = deadpool_postgres::Client;
 const DISCARD_SQL: &str = "CLOSE ALL; SET SESSION AUTHORIZATION DEFAULT; RESET ALL; UNLISTEN *; SELECT pg_advisory_unlock_all(); DISCARD TEMP; DISCARD SEQUENCES;";
 // the third custom text is empty: still one round trip (an empty query), not "no check"
 const CUSTOM_SQL: [&str; 3] = ["SELECT 1", "SET search_path TO public; SELECT 2", ""];
-const QUERIES: [&str; 4] = ["SELECT 1", "SELECT $1", "SELECT $1, $2", "SELECT $1::TEXT"];
+// the last two differ from the first two only by surrounding white space: still different texts
+const QUERIES: [&str; 6] = ["SELECT 1", "SELECT $1", "SELECT $1, $2", "SELECT $1::TEXT", " SELECT 1", "SELECT $1\n"];
 const OIDS: [i64; 4] = [23, 25, 20, 16];
 
 fn sql_id(q: &str) -> i64 {
@@ -353,8 +354,14 @@ impl Connect for Scripted {
             idcell.store(id, Ordering::SeqCst);
             let sh2 = sh.clone();
             let h = tokio::spawn(async move {
-                let _g = ClientDone(sh2, id);
+                let g = ClientDone(sh2, id);
                 let _ = conn.await;
+                drop(g);
+                // every other connection task outlives its connection (a task that does more than drive
+                // the connection): whether the connection is closed is the client's business to know
+                if id % 2 == 1 {
+                    std::future::pending::<()>().await;
+                }
             });
             Ok((client, h))
         })
@@ -785,8 +792,11 @@ fn gen_key(rng: &mut Rng, used: &mut Vec<Vec<i64>>) -> Vec<i64> {
 
 fn gen_fresh_key(rng: &mut Rng) -> Vec<i64> {
     // a small key space so that hits, and keys differing only in types, are frequent
-    let qn = if rng.chance(70) { 2 } else { 4 };
-    let q = rng.below(qn) as i64;
+    let q = match rng.below(10) {
+        0..=5 => rng.below(2) as i64,
+        6 | 7 => rng.below(4) as i64,
+        _ => [0, 1, 4, 5][rng.below(4) as usize],
+    };
     let n = rng.weighted(&[3, 4, 3]);
     let mut v = vec![q];
     for _ in 0..n {
